@@ -23,7 +23,7 @@ def main():
     qe.report_common(R, res, "C02")
     for cid in res["c02"]:
         h = res["byid"][cid]
-        if not h["kind"].startswith("cluster") and h["kind"] != "replay":
+        if not h["kind"].startswith("cluster"):
             continue
         R.violation("agreement:two-decides-differ", "two Decide callbacks of history %d (%s, n=%d) carry different values" % (cid, h["kind"], h["nodes"]),
                     qe.replay_obj(h))
